@@ -414,7 +414,7 @@ def run(chk):
         t0 = time.time()
         rc, o = V.run([drv, "-mode", "sup", "-cases", cf, "-out", of, "-stall",
                        "240" if name in ("proto", "nproto", "free-leaf", "free-maps", "replay") else "150",
-                       "-maxdeadlocks", "10" if name == "nproto" else "0"],
+                       "-maxdeadlocks", "6" if name == "nproto" else "0"],
                       timeout=1500 if quick else 2400)
         if rc != 0:
             return name, cases, [], "FAILED rc=%s: %s" % (rc, o[-1500:])
@@ -491,7 +491,7 @@ def run(chk):
         for s in ss:
             specs[id(s)] = by_id.get(s[0].get("id"))
         stuck = [s for s in ss if s[-1].get("why") == "watchdog"]
-        skipped = int((re.findall(r"skipped=(\d+)", summary) or ["0"])[-1])   # cases left out after 10 confirmed deadlocks
+        skipped = int((re.findall(r"skipped=(\d+)", summary) or ["0"])[-1])   # cases left out after 6 confirmed deadlocks
         if stuck or len(ss) + skipped < len(cases):
             chk.inconclusive.append("c17drv batch %s: %d case(s) made no progress and were given up, %d not executed (the Go "
                                     "runtime cannot prove a deadlock while timers / the netpoller are alive)" % (
